@@ -2,6 +2,7 @@
 //! instruction wrappers (trap-and-emulate in one user process, DESIGN.md §1.1 and §4).
 //! Decides C11(c,d) C12 C13 C14 C15 C16 C17 C18 C20(a).
 
+mod c17;
 mod c18;
 
 use usim::driver::{main_driver, Engine, Replay, Stats, Violation};
@@ -17,6 +18,7 @@ impl Engine for CpuSim {
     }
     fn gen(&self, seed: u64, focus: &str) -> Replay {
         match focus {
+            "C17" => c17::gen(seed),
             "C18" => c18::gen(seed),
             _ => {
                 eprintln!("HARNESS-ERROR: cpusim has no scenario generator for {focus}");
@@ -26,6 +28,7 @@ impl Engine for CpuSim {
     }
     fn run(&self, rp: &Replay, st: &mut Stats) -> Option<Violation> {
         match rp.property.as_str() {
+            "C17" => c17::run(rp, st),
             "C18" => c18::run(rp, st),
             p => {
                 eprintln!("HARNESS-ERROR: cpusim cannot run property {p}");
@@ -35,6 +38,7 @@ impl Engine for CpuSim {
     }
     fn simplify(&self, rp: &Replay) -> Vec<Replay> {
         match rp.property.as_str() {
+            "C17" => c17::simplify(rp),
             "C18" => c18::simplify(rp),
             _ => vec![],
         }
